@@ -1,7 +1,8 @@
 import SoundeventModel.Ops.Common
 import SoundeventModel.Matching
+import SoundeventModel.MatchCall
 namespace SE.Ops.C07
-open Lean SE SE.Matching
+open Lean SE SE.Matching SE.MatchCall
 
 def getOptNat (j : Json) : Except String (Option Nat) :=
   match j with
@@ -37,8 +38,79 @@ def errName : LoopErr → String
   | .index => "crash:IndexError"
   | .key => "key"
 
+/-- an argument of a call: `{"geoms": [geometry, …]}` or `{"num": "p/q"}` -/
+def getArg (j : Json) : Except String Arg := do
+  match fldOpt j "geoms" with
+  | some gs => return .geoms (← (← getArr gs).mapM getGeom)
+  | none => return .num (← fldRat j "num")
+
+def argJ : Arg → Json
+  | .geoms gs => Json.mkObj [("geoms", arrJ (gs.map geomJ))]
+  | .geom g => Json.mkObj [("geom", geomJ g)]
+  | .num x => Json.mkObj [("num", ratJ x)]
+
+def getKw (j : Json) : Except String (String × Arg) := do
+  match ← getArr j with
+  | [k, v] => return (← k.getStr?, ← getArg v)
+  | _ => .error "keyword arity"
+
+def getCall (a : Json) : Except String Call := do
+  return ⟨← (← fldArr a "source").mapM getGeom, ← (← fldArr a "target").mapM getGeom, ← fldRat a "tb", ← fldRat a "fb"⟩
+
 def handle (op : String) (a : Json) : Except String Json := do
   match op with
+  | "closed_matrix" =>
+    -- the affinity matrix of a call from the coordinates alone (`MatchCall.closedAffinity`; `null` where the pair
+    -- needs GEOS); `raise` when the call raises (`MatchCall.callError`: a negative buffer reaching a buffered type)
+    let c ← getCall a
+    let closedOnly : Call := c
+    match callError closedOnly with
+    | some e => return Json.mkObj [("raise", Json.str e.name)]
+    | none =>
+      return Json.mkObj [("matrix", arrJ (c.src.map fun g => arrJ (c.tgt.map fun h =>
+        if closedPair g h then ratJ (affinityOf c.tb c.fb g h) else Json.null)))]
+  | "bind_call" =>
+    -- `match_geometries(*pos, **kw)`: the bound call, or the TypeError
+    let pos ← (← fldArr a "pos").mapM getArg
+    let kw ← (← fldArr a "kw").mapM getKw
+    match callOf pos kw with
+    | .error _ => return Json.mkObj [("raise", Json.str "type")]
+    | .ok none => return Json.mkObj [("raise", Json.str "type")]
+    | .ok (some c) =>
+      return Json.mkObj [("source", arrJ (c.src.map geomJ)), ("target", arrJ (c.tgt.map geomJ)),
+        ("tb", ratJ c.tb), ("fb", ratJ c.fb)]
+  | "holds_ind" =>
+    -- the property on an observed output judged against the independent matrix up to `tau` per entry
+    -- (`Proofs.C07.C07_holds_ind`); with `u`, `v`, `witness` the optimum of the snapped matrix is certified
+    -- (`C07_holds_ind_cert`), otherwise brute-forced
+    let (n, m, aff) ← getMatrix a
+    let out ← (← fldArr a "out").mapM getEntry
+    let tau ← fldRat a "tau"
+    let tol ← fldRat a "tol"
+    let b := snap tau aff out
+    let within := out.all fun e => match e.src, e.tgt with
+      | some i, some j => decide (aff i j - e.aff ≤ tau) && decide (e.aff - aff i j ≤ tau)
+      | _, _ => true
+    let shape := [("cover_src", boolJ ((srcs out).isPerm (List.range n))),
+      ("cover_tgt", boolJ ((tgts out).isPerm (List.range m))), ("entries", boolJ (out.all (entryOk b))),
+      ("within", boolJ within), ("total", ratJ (total out))]
+    match fldOpt a "witness" with
+    | some wj =>
+      let u := vecOf (← getRatList (← fld a "u"))
+      let v := vecOf (← getRatList (← fld a "v"))
+      let w ← (← getArr wj).mapM getPairNat
+      return Json.mkObj (shape ++ [("cert", boolJ (certOk n m b u v w)),
+        ("all", boolJ (holdsIndCert tau tol n m aff u v w out)),
+        ("optimal", boolJ (optimalByCert tol n m b u v w out)), ("best", ratJ (value b w))])
+    | none =>
+      return Json.mkObj (shape ++ [("cert", boolJ true), ("all", boolJ (holdsInd tau tol n m aff out)),
+        ("optimal", boolJ (optimalWithin tol n m b out)), ("best", ratJ (bestValue n m b))])
+  | "close" =>
+    -- `closeWithin τ n m a b` (hypothesis of `Proofs.C07.C07_optimal_perturb`) with `b` given as a second matrix
+    let (n, m, aff) ← getMatrix a
+    let rows2 ← (← fldArr a "matrix2").mapM getRatList
+    let tau ← fldRat a "tau"
+    return Json.mkObj [("close", boolJ (closeWithin tau n m aff (matOfRows rows2)))]
   | "match" =>
     let (n, m, aff) ← getMatrix a
     let assigned ← (← fldArr a "assigned").mapM getPairNat
